@@ -167,7 +167,11 @@ def vc_match_states(prog, state_kind='edge', family='base'):
                    ('meth', 'Map', 'nodes_nbrto'): Model('map.nodes_nbrto', m_nodes_nbrto),
                    ('meth', 'Map', 'edges_nbrto'): Model('map.edges_nbrto', m_edges_nbrto)})
     hooks = {('index', 'Lattice'): h_index_lattice, ('index', 'Path'): h_index_path}
-    contracts = {'BaseMatching.next': c_next, 'BaseMatcher._insert': c_insert}
+    def c_visited_ms(it, fv_, args, kw):
+        # callee contract of _node_in_prev_ne (if the expansion ever consults it): some boolean about the history of the entry.
+        # The emitting expansion is specified WITHOUT it: what an entry expands to does not depend on how it was reached.
+        return it.ctx.fresh('visited_in_history', 'B')
+    contracts = {'BaseMatching.next': c_next, 'BaseMatcher._insert': c_insert, 'BaseMatcher._node_in_prev_ne': c_visited_ms}
 
     def call_is(call, l1, l2=None):
         """the next() call targets node l1 / edge (l1,l2), for observation obs_idx, emitting, with the observation point"""
@@ -405,9 +409,18 @@ def vc_ne_end(prog, state_kind='edge', family='base'):
         d = SymDict('raw-layer', anyval)
         it.ctx.events.append(Event('raw-layer-access', col=col, d=d))
         return d
+    def lat_get(it, lat, i, default=None):
+        # the lattice is a dict of columns: a column may or may not exist for an index
+        return default if it.ctx.choice(2, 'lattice-has-column') == 0 else Obj('Column', idx=i)
+
+    def sd_len(it, d):
+        n = it.ctx.fresh('layer_len', 'I')
+        it.ctx.assume(n >= 0)
+        return n
     models.update({('meth', 'Column', 'upsert'): Model('LatticeColumn.upsert', c_upsert),
-                   ('meth', 'Column', 'dict'): Model('LatticeColumn.dict', raw), ('meth', 'Column', 'values'): Model('LatticeColumn.values', raw)})
-    hooks = {('index', 'Lattice'): h_index_lattice}
+                   ('meth', 'Column', 'dict'): Model('LatticeColumn.dict', raw), ('meth', 'Column', 'values'): Model('LatticeColumn.values', raw),
+                   ('meth', 'Lattice', 'get'): Model('dict.get', lat_get)})
+    hooks = {('index', 'Lattice'): h_index_lattice, ('len', 'SymDict'): sd_len}
 
     def end_goals(ctx, why):
         m = st.get('m')
